@@ -73,7 +73,20 @@ func (vc *VC) step(fr *frame, st *State, instr ssa.Instruction) {
 		for i := len(fr.defers) - 1; i >= 0; i-- {
 			d := fr.defers[i]
 			if d.block != fr.fn.Blocks[0] && !d.block.Dominates(in.Block()) {
-				vc.fail("conditional defer unsupported")
+				// a defer statement that is not executed on every path to this point: the deferred call runs
+				// exactly on the paths that went through it (its path condition at registration). Defers inside
+				// loops stay outside the subset.
+				for _, b := range fr.fn.Blocks {
+					if isLoopHeader(b) && loopBlocks(b)[d.block] {
+						vc.fail("defer inside a loop unsupported")
+					}
+				}
+				took := vc.script.Define("pc:defer.taken", And(st.pc, d.pc))
+				skipped := vc.script.Define("pc:defer.skipped", And(st.pc, Not(d.pc)))
+				sub := &State{pc: took, heap: st.heap.Clone()}
+				vc.call(fr, sub, d.call, d.call.Common())
+				st.heap = vc.mergeHeaps([]Term{sub.pc, skipped}, []*Heap{sub.heap, st.heap})
+				continue
 			}
 			vc.call(fr, st, d.call, d.call.Common())
 		}
@@ -535,7 +548,10 @@ func (vc *VC) lookup(fr *frame, st *State, in *ssa.Lookup) Value {
 		val = vc.wrap(t, vt)
 		vc.assumeAllocated(st, val, vt)
 	default:
-		vc.fail("map with composite value type %s", vt)
+		// values of composite type are not modelled: a lookup yields an arbitrary value of the type
+		vc.note("values of map type " + xt.String() + " are not modelled (lookups yield arbitrary values)")
+		val = vc.freshValue(in.Name()+":opaque", vt)
+		vc.assumeAllocated(st, val, vt)
 	}
 	if in.CommaOk {
 		return TupleVal{val, vc.script.Define(in.Name()+":ok", dom)}
@@ -563,7 +579,7 @@ func (vc *VC) mapUpdate(fr *frame, st *State, in *ssa.MapUpdate) {
 		vc.hset(st, "mapval:"+key, Store(val, m, Store(Select(val, m), k, v)))
 		vc.noteWrite("mapval:"+key, m)
 	} else if mt.Elem.K != KUnit {
-		vc.fail("map with composite value type %s", mt.Elem)
+		vc.note("values of map type " + mt.String() + " are not modelled (lookups yield arbitrary values)")
 	}
 }
 
@@ -628,7 +644,9 @@ func (vc *VC) rangeNext(fr *frame, st *State, in *ssa.Next) Value {
 		val = vc.wrap(t, vt)
 		vc.assumeAllocated(st, val, vt)
 	default:
-		vc.fail("range over map with composite values")
+		vc.note("values of map type " + it.mt.String() + " are not modelled (lookups yield arbitrary values)")
+		val = vc.freshValue(in.Name()+":opaque", vt)
+		vc.assumeAllocated(st, val, vt)
 	}
 	return TupleVal{ok, vc.wrap(k, *it.mt.Key), val}
 }
@@ -728,8 +746,20 @@ func (vc *VC) boxStruct(st *State, hint string, v Value, t SType) Value {
 	r := vc.newRef(st, hint+":box")
 	s, _ := structOf(t.Go)
 	for i := 0; i < s.NumFields(); i++ {
+		if ft := FromGo(s.Field(i).Type()); !ft.single() && ft.K != KUnit {
+			// a struct with nested composite fields held in an interface: the payload is not modelled (the box is
+			// an opaque non-nil value of that dynamic type; unboxing it is outside the subset)
+			vc.note("struct values of type " + t.String() + " held in interface values are opaque")
+			vc.script.Assume(Eq(vc.tagOf(r), vc.tagFor(t)))
+			return r
+		}
+	}
+	for i := 0; i < s.NumFields(); i++ {
 		f := s.Field(i)
 		ft := FromGo(f.Type())
+		if ft.K == KUnit {
+			continue
+		}
 		if !ft.single() {
 			vc.fail("boxing struct %s with composite field %s", t, f.Name())
 		}
